@@ -19,6 +19,9 @@ CLAIMED = {
  "C04": dict(tech="sibling cross-check of the dict/list/set branches of the matcher against the documented rule template; dispatch exhaustiveness; CFG dominance of identity tests over argument scoring; return-value shape",
              text="Decides the shape of the recursive matcher that the documentation states per container kind (size guard, recursion order, no-partner=>0.0, single specificity factor, loop over the expected container), the dominance of the action/flow instance and name tests over argument scoring, and the comparison primitives. The matching relation over all values is not decided. Found and repaired F5.",
              ref="DESIGN.md C04"),
+ "C05": dict(tech="CFG path enumeration of one group iteration / one competing-head iteration of _resolve_action_conflicts (emission count, fate count); def-use of the grouping key; shape of sort order and tie prefix; reaching definition of the filtered head list",
+             text="Decides on every path: one action emission per interaction-loop group, none for co-winners, exactly one fate (co-win under is_equal / caught / abort) per competing head, grouping by the head's own loop_id, descending score order with the winner drawn from the exact-tie prefix, and the active-flow filter before resolution. The order over score vectors for all values is not decided.",
+             ref="DESIGN.md C05"),
 }
 NA = {
  "C18": "equality of string results over all chunkings of a stateful transducer; no structural necessary condition that is not a brittle proxy (DESIGN.md C18)",
